@@ -101,6 +101,7 @@ def spd_matrix(rng, n, kind=None, complex_=False):
         W = W + W.T
         L = np.diag(W.sum(1)) - W + np.diag(rng.choice([0.0, 0.5, 1.0], size=n))
         L[0, 0] += 1.0
+        L += np.diag((np.diag(L) == 0) * 1.0)      # isolated node with zero shift: keep the matrix definite
         A = sp.csr_array(L)
     else:
         B = rng.integers(-2, 3, size=(n, n)).astype(float)
